@@ -266,6 +266,49 @@ Proof.
   f_equal. apply map_ext. intros u. apply orbit_set_ext. exact Hmem.
 Qed.
 
+(** ---------- clause 4 at the level of functions: m = m' o sigma^-1 for a rule automorphism sigma ---------- *)
+Lemma assoc_none_notin {V} k (l : list (N * V)) : assoc k l = None -> ~ In k (map fst l).
+Proof. intros H Hin. destruct (assoc_some_in k l Hin) as (a & E). congruence. Qed.
+
+Lemma assoc_rev_nodup {V} k (l : list (N * V)) : NoDup (map fst l) -> assoc k (rev l) = assoc k l.
+Proof.
+  intros Hnd. assert (Hnd' : NoDup (map fst (rev l))) by (rewrite map_rev; apply NoDup_rev; exact Hnd).
+  destruct (assoc k l) as [v|] eqn:E.
+  - apply assoc_in in E. eapply assoc_nodup_in; [exact Hnd' | rewrite <- in_rev; exact E].
+  - apply assoc_not_in. rewrite map_rev, <- in_rev. apply assoc_none_notin. exact E.
+Qed.
+
+Lemma app_map_aut_pairs (g : graph) (s : N -> N) p : NoDup (node_ids g) -> In p (node_ids g) -> app_map (aut_pairs g s) p = s p.
+Proof.
+  intros Hnd Hp. unfold app_map, aut_pairs. rewrite assoc_rev_nodup.
+  - rewrite <- combine_map_pairs, (assoc_combine_map s _ _ Hp). reflexivity.
+  - rewrite map_map. simpl. rewrite map_id. exact Hnd.
+Qed.
+
+Lemma prune_complete_fun (X : Type) (key : X -> mapping) (rc : graph) (raw : list X) :
+  simple_graph rc ->
+  (forall x p h, In x raw -> In (p, h) (key x) -> In p (node_ids rc)) ->
+  forall x, In x raw ->
+  exists y, In y (prune key rc raw) /\
+    exists s, is_automorphism n_full e_full rc s /\
+      forall p h, In (p, h) (key x) <-> exists p', In (p', h) (key y) /\ p = s p'.
+Proof.
+  intros Hg Hdom x Hx.
+  assert (Hid : is_automorphism n_full e_full rc (fun u => u)) by apply isaut_id.
+  destruct (prune_complete_all X key rc raw x Hx) as (y & Hy & [E | [E | (m & Hm & E)]]).
+  - exists y. split; [exact Hy|]. exists (fun u => u). split; [exact Hid|]. subst y.
+    intros p h. split; [intros H; exists p; auto | intros (p' & H & ->); exact H].
+  - exists y. split; [exact Hy|]. exists (fun u => u). split; [exact Hid|].
+    intros p h. rewrite (E (p, h)). split; [intros H; exists p; auto | intros (p' & H & ->); exact H].
+  - exists y. split; [exact Hy|].
+    apply (auts_listing n_full e_full rc Hg) in Hm. destruct Hm as (s & Hs & ->).
+    exists s. split; [exact Hs|]. intros p h. rewrite E.
+    assert (Hyraw : In y raw) by (exact (subseq_in _ _ _ (prune_subseq X key rc raw) Hy)).
+    split; intros (p' & H & ->); exists p'; (split; [exact H|]).
+    + apply app_map_aut_pairs; [apply Hg | eapply Hdom; eauto].
+    + symmetry. apply app_map_aut_pairs; [apply Hg | eapply Hdom; eauto].
+Qed.
+
 (** ---------- non-vacuity ---------- *)
 (** propene-like path 1 - 2 = 3 with labels C, C, O is asymmetric; the path C - C - C below has the mirror symmetry *)
 Definition ex_path : graph :=
